@@ -101,6 +101,9 @@ def export_to_yaml(statechart: Statechart, filepath: str = None) -> str:
     output = StringIO()
 
     yml = yaml.YAML(typ='safe', pure=True)
+    # Use block style only: in flow style, plain scalars such as "?k" are emitted unquoted
+    # and cannot be parsed again.
+    yml.default_flow_style = False
     yml.dump(export_to_dict(statechart), output)
 
     if filepath:
